@@ -22,7 +22,7 @@ ASSUMPTIONS = ['a result block is attributed to a target by its "(gen) target:" 
                'rank order internal error > connection error > failure > warning > good, as the README documents']
 
 FAIL_KINDS = ['unresolvable', 'refused', 'blackhole', 'silent', 'close_before_banner', 'close_after_banner', 'bad_block', 'bad_crc', 'trunc_kexinit', 'probe_garbage',
-              'vermismatch', 'stall_kexinit', 'reset_mid', 'badport', 'badport0']
+              'vermismatch', 'stall_kexinit', 'reset_mid', 'badport', 'badport0', 'badport_nan']
 HEALTHY = ['clean', 'terrapin_marked', 'rsa2048', 'gex2048', 'cbc_etm', 'rsa4096', 'ssh1']
 RANK = {0: 0, 2: 1, 3: 2, 1: 3, 255: 4}
 
@@ -33,11 +33,11 @@ def bad_target(rng, kind, i):
     if kind in ('unresolvable', 'refused', 'blackhole'):
         t['kind'] = kind
         return t
-    if kind in ('badport', 'badport0'):
+    if kind in ('badport', 'badport0', 'badport_nan'):
         # an entry whose port is outside 1-65535: must be rejected for that entry only
         t['kind'] = 'badline'
         t['port'] = 22
-        t['line'] = '%s:%s' % (host, '65536' if kind == 'badport' else '0')
+        t['line'] = '%s:%s' % (host, {'badport': '65536', 'badport0': '0', 'badport_nan': rng.choice(['12ab', 'ssh', '22x', '-'])}[kind])
         return t
     base = make_target(rng, 'clean', i)['profile']
     t['profile'] = base
